@@ -66,6 +66,17 @@ def c17b(ctx, tu):
             init = d.get("init")
             s = str(init)
             ok = lib.tree_name(init[3][2] if init[:1] == ["ctor"] and len(init[3]) == 3 else None) == A["tracer_obj"]
+            if not ok and init[:1] == ["ctor"]:
+                # ... or the agent's constructor reads it itself (it runs at this very point of the dispatch function)
+                ctor = tu.fns.get(init[1])
+                if ctor is not None and ctor.has_body:
+                    def unbrace(x):
+                        x = lib.strip_casts(x)
+                        while isinstance(x, list) and x[:1] == ["initlist"] and len(x) > 2 and len(x[2]) == 1:
+                            x = lib.strip_casts(x[2][0])
+                        return x
+                    ok = any(e["e"] == "init" and erase(e.get("field", "")) == AG + "::t" and
+                             lib.tree_name(unbrace(e.get("x"))) == A["tracer_obj"] for b, e in ctor.events())
             why = "the agent must be given the tracer that is current at the time of the call (tracer_obj() read there)"
             if ok:
                 ok = ("call_matcher_base" in s and "::loc" in s and "::name" in s and ("['var', %d," % cand) in s)
@@ -215,10 +226,10 @@ def c17d(ctx, tu):
             continue
         for b, e in f.events():
             if e["e"] == "call" and qe(e) == A["tracer_obj"]:
-                ok = f.qe in (A["set_tracer"], A["dispatch"])
+                ok = f.qe in (A["set_tracer"], A["dispatch"], AG + "::trace_agent")
                 ctx.ob("C17.d.who", f.qe, ok, pattern=short_loc(e.get("loc", "")), unit=tu.name,
                        detail="" if ok else "%s accesses the current-tracer object; only set_tracer (write) and the "
-                       "dispatch function (read at call time) may" % f.qe)
+                       "dispatch function / the agent it constructs (read at call time) may" % f.qe)
     for c in tu.cls_by_qe.get("trompeloeil::tracer", []):
         sp = c.get("special", {})
         ok = sp.get("copy_ctor", {}).get("status") == "deleted" and sp.get("copy_assign", {}).get("status") == "deleted"
